@@ -327,17 +327,28 @@ let verdict case impl =
     let well = has_carrier k v in
     let prop =
       if not well then None
+      else if (match k, v with KCqlValue, VLeaf _ -> true | _ -> false) then
+        (* the dynamic carrier: accepted iff the CqlValue is a value of the type *)
+        (match k, v with
+         | KCqlValue, VLeaf x ->
+           if ires = "ok" then
+             (if dyn_fits t x then None
+              else Some ((if dyn_known t x then "class=vector-null-element " else "") ^ "accepted a CqlValue that is not a value of the type"))
+           else (match strip_err ires with
+               | Some e when dyn_fits t x && e <> "SizeOverflow" && e <> "TooManyElements" ->
+                 Some ("refused a CqlValue of the type with " ^ e)
+               | _ -> None)
+         | _ -> None)
       else if ires = "ok" then
-        (if populated v && not (spec_compat Ser k t) then
-           Some ("accepted a pair outside the specification" ^ class_suffix k t) else None)
+        (if (populated v || known_class k t) && not (spec_compat Ser k t) then
+           Some ((if known_class k t then "class=vector-null-element " else "") ^ "accepted a pair outside the specification") else None)
       else (match strip_err ires with
           | Some e when List.mem e typeck_names && static k && doc_compat Ser k t ->
             Some ("refused a documented pair with " ^ e)
           | _ -> None) in
     (match prop with
      | Some why ->
-       let cl = (if ires = "ok" then class_suffix k t else "") in
-       "viol" ^ cl ^ " " ^ why ^ (if agrees then "" else " ; model=" ^ mres ^ " " ^ mbuf)
+       "viol " ^ why ^ (if agrees then "" else " ; model=" ^ mres ^ " " ^ mbuf)
      | None -> if agrees then "ok" else "diff model=" ^ mres ^ " " ^ mbuf)
   | ["D"; cs; ts], [ires] ->
     let k = carrier_of_string cs and t = type_of_string ts in
